@@ -269,6 +269,37 @@ def trace_phase(run, exe, prop, tier, e):
                 run.cov["conformant"] = False
 
 
+LIVE = {"C02": ["lk_wr", "lk_rr_w", "lk_try", "bin_wr"], "C04": ["cv_sig_in", "cv_timed", "cv_rd"], "C05": ["cv_timed", "mw_timed", "mw_rd", "cv_cancel_dl"],
+        "C06": ["mw_1", "mw_timed"], "C16": ["db_1", "db_2"], "C01": []}
+LIVE_T = {"C02": ["lk_3", "lk_3r", "bin_3"], "C04": ["cv_timed_after", "wn_in", "wn_after"], "C05": ["cv_cancel_sig"], "C06": ["mw_ww", "mw_rd"]}
+
+
+def liveness_phase(run, prop, tier):
+    """Termination under weak fairness of every thread's steps and of the clock (FairSpecU): no livelock in the spin loops, every
+    lock / wait call eventually returns (programs in which everybody is meant to finish)."""
+    import muconfigs, concurrent.futures as cf
+    names = LIVE.get(prop, []) + (LIVE_T.get(prop, []) if tier == "thorough" else [])
+    if not names:
+        return
+    dbg, cvfix = _dbgfixed if _dbgfixed is not None else True, _cvfix if _cvfix is not None else True
+
+    def one(name):
+        conf = dict(muconfigs.FAM[name][0]); conf.setdefault("DbgFixed", dbg); conf.setdefault("CvFix", cvfix)
+        tla, cfg = muconf.write_mc(MC, "live_" + name, conf, consts(), [], spec="FairSpecU", export=False, props=["Termination"])
+        return name, tlc_plain(tla, cfg, workers=3, cwd=MC, timeout=3000)
+    with cf.ThreadPoolExecutor(4) as ex:
+        for name, info in ex.map(one, names):
+            run.cov.setdefault("liveness", []).append({"config": name, "property": "Termination under WF", "states": info["distinct"], "verdict": "holds" if info["ok"] else (info["violated"] or "error")})
+            run.add("liveness_states", info["distinct"])
+            if not info["ok"]:
+                if info["violated"] == "Temporal":
+                    rp = os.path.join(REPLAYS, "%s_live_%s.txt" % (prop, name))
+                    open(rp, "w").write(info["out"][-6000:])
+                    run.violation("TLC|Termination|%s" % name, rp, "Mu.tla (constants from the code) admits a fair behaviour of configuration %s in which some thread never finishes (livelock or lost wake-up under fairness)" % name)
+                else:
+                    raise ToolFailure("liveness check of %s failed: %s" % (name, info["out"][-1500:]))
+
+
 def fine_runs(run, exe, prop, tier, e):
     import muconfigs
     nruns = 1500 if tier == "quick" else 40000
@@ -319,6 +350,7 @@ def mu_check(prop, tier, replay, extra_rule="", extra_assume=(), env=None, post=
         run.cov["exhaustive"] = False
     fine_runs(run, exe, prop, tier, e)
     trace_phase(run, exe, prop, tier, e)
+    liveness_phase(run, prop, tier)
     if post:
         post(run, exe, results, e)
     run.cov.setdefault("conformant", True)
